@@ -533,8 +533,7 @@ class Node(
             return True, self._outputs_to_run_return()
         else:
             self._on_cache_miss()
-            if self.use_cache:  # Write cache and continue
-                self._cached_inputs = self.inputs.to_value_dict()
+            # The cache gets written only once the run succeeds (cf. _run_finally)
 
         return super()._before_run(check_readiness=check_readiness)
 
@@ -566,6 +565,9 @@ class Node(
 
     def _run_finally(self, /, emit_ran_signal: bool, raise_run_exceptions: bool):
         super()._run_finally()
+        if self.use_cache and not self.failed:
+            # Only inputs that produced the current outputs may short-circuit a run
+            self._cached_inputs = self.inputs.to_value_dict()
         if self.parent is not None and self.parent.running:
             self.parent.register_child_finished(self)
         if self.checkpoint is not None:
@@ -693,6 +695,9 @@ class Node(
 
     @property
     def cache_hit(self):
+        if self.running or self.failed:
+            # A run that is in flight or that failed must not be short-circuited
+            return False
         try:
             return self.inputs.to_value_dict() == self._cached_inputs
         except Exception:
